@@ -17,6 +17,15 @@ REPO = os.environ.get("VERIF_REPO", "/repo")
 COQ = os.path.join(VERIF, "coq")
 HARNESS = os.path.join(VERIF, "harness")
 WORK = os.path.join(VERIF, ".work")
+BIN = os.path.join(HARNESS, "bin")
+SCRATCH = os.path.realpath(REPO) != "/repo"
+if SCRATCH:
+    # a run against a scratch copy of the repository (mutation experiments) is isolated from the runs against /repo:
+    # its own work directory, its own copy of the Coq tree (Gen tables and .vo files differ per repository) and its own binaries
+    WORK = os.path.join(VERIF, ".work", "scratch_" + hashlib.sha1(os.path.realpath(REPO).encode()).hexdigest()[:10])
+    COQ = os.path.join(WORK, "coq")
+    BIN = os.path.join(WORK, "bin")
+REPLAYS = os.path.join(WORK, "replays") if SCRATCH else os.path.join(VERIF, "replays")
 
 GOENV = dict(os.environ, GOFLAGS="-mod=mod", GOPROXY="off", GOSUMDB="off", GOTOOLCHAIN="local",
              CGO_ENABLED=os.environ.get("CGO_ENABLED", "0"))
@@ -220,11 +229,11 @@ def run_go2coq(log):
         return True, "no translator present"
     msgs = []
     ok = True
-    os.makedirs(os.path.join(HARNESS, "bin"), exist_ok=True)
+    os.makedirs(BIN, exist_ok=True)
     os.makedirs(os.path.join(COQ, "Gen"), exist_ok=True)
     write_if_changed(os.path.join(HARNESS, "go.sum"), open(os.path.join(REPO, "go.sum")).read())
     for d in cmds:
-        binp = os.path.join(HARNESS, "bin", d)
+        binp = os.path.join(BIN, d)
         rc, out, _ = sh(["go", "build", "-o", binp, "./cmd/" + d], cwd=HARNESS, env=GOENV, timeout=300)
         log.append(f"== go build {d}\n" + out)
         if rc != 0:
@@ -417,6 +426,15 @@ def main():
     shutil.rmtree(work, ignore_errors=True)
     os.makedirs(work)
     with Lock():
+        if SCRATCH:
+            # bring the scratch Coq tree up to date with the sources (Gen is regenerated below, never copied)
+            first = not os.path.isdir(COQ)
+            os.makedirs(COQ, exist_ok=True)
+            excl = ["--exclude", "Gen/", "--exclude", "Makefile*", "--exclude", ".Makefile.d", "--exclude", "_CoqProject"]
+            if not first:
+                # compiled files are copied once, to start warm; afterwards only sources (a .vo built against /repo's Gen tables must not overwrite one built against this copy's)
+                excl += ["--exclude", "*.vo", "--exclude", "*.vos", "--exclude", "*.vok", "--exclude", "*.glob", "--exclude", ".*.aux"]
+            sh(["rsync", "-a", "--update"] + excl + [os.path.join(VERIF, "coq") + "/", COQ + "/"], timeout=600)
         # 1. translator
         gen_ok, gen_msg = run_go2coq(log)
         if not gen_ok:
@@ -436,7 +454,7 @@ def main():
         drv_res = None
         shard_results = []
         if cfg["driver"] and os.path.isdir(os.path.join(HARNESS, "cmd", cfg["driver"])):
-            binp = os.path.join(HARNESS, "bin", cfg["driver"])
+            binp = os.path.join(BIN, cfg["driver"])
             os.makedirs(os.path.dirname(binp), exist_ok=True)
             rc, out, dt = go_build(binp, "./cmd/" + cfg["driver"], tags=cfg["tags"], race=cfg["race"])
             log.append(f"== go build {cfg['driver']} ({dt:.1f}s)\n" + out)
@@ -462,7 +480,7 @@ def main():
             for suffix, vtags in cfg.get("variants", []):
                 if drv_res is None:
                     break
-                vbin = os.path.join(HARNESS, "bin", cfg["driver"] + "_" + suffix)
+                vbin = os.path.join(BIN, cfg["driver"] + "_" + suffix)
                 rc, out, dt = go_build(vbin, "./cmd/" + cfg["driver"], tags=vtags, race=cfg["race"])
                 log.append(f"== go build {cfg['driver']} [{vtags}] ({dt:.1f}s)\n" + out)
                 if rc != 0:
@@ -510,7 +528,7 @@ def main():
     # 5. decide
     known, fixed = load_known(pid)
     known_keys = {k["key"]: k for k in known}
-    os.makedirs(os.path.join(VERIF, "replays", pid), exist_ok=True)
+    os.makedirs(os.path.join(REPLAYS, pid), exist_ok=True)
     violations = 0
     lines = []
     seen_known = set()
@@ -537,7 +555,7 @@ def main():
         except OSError:
             pass
     def write_replay(name, payload):
-        p = os.path.join(VERIF, "replays", pid, name)
+        p = os.path.join(REPLAYS, pid, name)
         json.dump(payload, open(p, "w"), indent=1, default=str)
         return p
     reported = set()
